@@ -244,3 +244,57 @@ v("C11", "silent-payload-add-temp", "silent", P,
 v("C11", "silent-payload-eq-early", "silent", P,
   "        if isinstance(other, Payload):\n            return self.value == other.value\n\n        return self.value == other",
   "        if not isinstance(other, Payload):\n            return self.value == other\n\n        return self.value == other.value")
+
+# ---------------------------------------------------------------- C04
+v("C04", "or-lt-advances-b", "fire", I,
+  "                    b_default = self.b_fiber._createDefault(addtorank=False)\n                    yield a_coord, (\"A\", a_payload, b_default)\n                    a_coord, a_payload = _get_next(a)\n\n                # a_coord > b_coord\n                else:\n                    if b_traced:",
+  "                    b_default = self.b_fiber._createDefault(addtorank=False)\n                    yield a_coord, (\"A\", a_payload, b_default)\n                    b_coord, b_payload = _get_next(b)\n\n                # a_coord > b_coord\n                else:\n                    if b_traced:", "C04.R3")
+v("C04", "and-lt-advances-both", "fire", I,
+  "                    a_coord, a_payload = _get_next(a)\n\n                    continue\n\n                if a_coord > b_coord:",
+  "                    a_coord, a_payload = _get_next(a)\n                    b_coord, b_payload = _get_next(b)\n\n                    continue\n\n                if a_coord > b_coord:", "C04.R3")
+v("C04", "xor-eq-emits", "fire", I,
+  "                if a_coord == b_coord:\n                    a_coord, a_payload = _get_next(a)\n                    b_coord, b_payload = _get_next(b)\n\n                elif a_coord < b_coord:\n                    b_default = self.b_fiber._createDefault(addtorank=False)\n                    yield a_coord, (\"A\", a_payload, b_default)",
+  "                if a_coord == b_coord:\n                    yield a_coord, (\"AB\", a_payload, b_payload)\n                    a_coord, a_payload = _get_next(a)\n                    b_coord, b_payload = _get_next(b)\n\n                elif a_coord < b_coord:\n                    b_default = self.b_fiber._createDefault(addtorank=False)\n                    yield a_coord, (\"A\", a_payload, b_default)", "C04.R4")
+v("C04", "sub-no-tail", "fire", I,
+  "            while a_coord is not None:\n                yield a_coord, a_payload\n                a_coord, a_payload = _get_next(a)\n\n    result = self.fromIterator(sub_iterator",
+  "    result = self.fromIterator(sub_iterator", "C04.R6")
+v("C04", "sub-gt-emits", "fire", I,
+  "                # a_coord > b_coord:\n                else:\n                    b_coord, b_payload = _get_next(b)",
+  "                # a_coord > b_coord:\n                else:\n                    yield b_coord, b_payload\n                    b_coord, b_payload = _get_next(b)", "C04.R4")
+v("C04", "or-mask-typo", "fire", I,
+  "                    a_default = self.a_fiber._createDefault(addtorank=False)\n                    yield b_coord, (\"B\", a_default, b_payload)\n                    b_coord, b_payload = _get_next(b)\n\n            while a_coord is not None:\n                if a_traced:",
+  "                    a_default = self.a_fiber._createDefault(addtorank=False)\n                    yield b_coord, (\"A\", a_default, b_payload)\n                    b_coord, b_payload = _get_next(b)\n\n            while a_coord is not None:\n                if a_traced:", "C04.R5")
+v("C04", "or-default-from-wrong-operand", "fire", I,
+  "            while a_coord is not None:\n                if a_traced:\n                    Metrics.addUse(rank, a_coord, a_pos, type_=a_trace)\n                    a_pos += 1\n\n                b_default = self.b_fiber._createDefault(addtorank=False)",
+  "            while a_coord is not None:\n                if a_traced:\n                    Metrics.addUse(rank, a_coord, a_pos, type_=a_trace)\n                    a_pos += 1\n\n                b_default = self.a_fiber._createDefault(addtorank=False)", "C04.R5")
+v("C04", "xor-slot-swapped", "fire", I,
+  "            while b_coord is not None:\n                a_default = self.a_fiber._createDefault(addtorank=False)\n                yield b_coord, (\"B\", a_default, b_payload)",
+  "            while b_coord is not None:\n                a_default = self.a_fiber._createDefault(addtorank=False)\n                yield b_coord, (\"B\", b_payload, a_default)", "C04.R5")
+v("C04", "or-emits-wrong-coord", "fire", I,
+  "                    yield a_coord, (\"A\", a_payload, b_default)\n                    a_coord, a_payload = _get_next(a)\n\n                # a_coord > b_coord\n                else:\n                    if b_traced:",
+  "                    yield b_coord, (\"A\", a_payload, b_default)\n                    a_coord, a_payload = _get_next(a)\n\n                # a_coord > b_coord\n                else:\n                    if b_traced:", "C04.R5")
+v("C04", "and-compare-le", "fire", I,
+  "                if a_coord < b_coord:\n                    if a_traced:",
+  "                if a_coord <= b_coord:\n                    if a_traced:", "C04.R2")
+v("C04", "and-succ-next-lt-advances-a", "fire", I,
+  "                def succ_next(a, a_coord, a_payload, b, b_coord, b_payload):\n                    return a_coord, a_payload, *_get_next(b)",
+  "                def succ_next(a, a_coord, a_payload, b, b_coord, b_payload):\n                    return *_get_next(a), b_coord, b_payload", "C04.R3", )
+v("C04", "and-succ-yield-shorter", "fire", I,
+  "                def succ_yield(a_coord, b_coord):\n                    return b_coord",
+  "                def succ_yield(a_coord, b_coord):\n                    return a_coord", "C04.R5")
+v("C04", "xor-shared-default", "fire", I,
+  "            while a_coord is not None:\n                b_default = self.b_fiber._createDefault(addtorank=False)\n                yield a_coord, (\"A\", a_payload, b_default)",
+  "            b_default = self.b_fiber._createDefault(addtorank=False)\n            while a_coord is not None:\n                yield a_coord, (\"A\", a_payload, b_default)", "C04.R5")
+v("C04", "or-registers-default", "fire", I,
+  "                    a_default = self.a_fiber._createDefault(addtorank=False)\n                    yield b_coord, (\"B\", a_default, b_payload)\n                    b_coord, b_payload = _get_next(b)\n\n            while a_coord is not None:\n                if a_traced:",
+  "                    a_default = self.a_fiber._createDefault()\n                    yield b_coord, (\"B\", a_default, b_payload)\n                    b_coord, b_payload = _get_next(b)\n\n            while a_coord is not None:\n                if a_traced:", "C04.R8")
+v("C04", "get-next-raises", "fire", I,
+  "    except StopIteration:\n        return (None, None)", "    except StopIteration:\n        raise", "C04.R1")
+v("C04", "union-folds-xor", "fire", I,
+  "    for arg in args[2:]:\n        nested_result = nested_result | arg", "    for arg in args[2:]:\n        nested_result = nested_result ^ arg", "C04.R1")
+v("C04", "silent-sub-elif-to-if-continue", "silent", I,
+  "                if a_coord == b_coord:\n                    a_coord, a_payload = _get_next(a)\n                    b_coord, b_payload = _get_next(b)\n\n                elif a_coord < b_coord:\n                    yield a_coord, a_payload\n                    a_coord, a_payload = _get_next(a)\n\n                # a_coord > b_coord:\n                else:\n                    b_coord, b_payload = _get_next(b)",
+  "                if a_coord == b_coord:\n                    a_coord, a_payload = _get_next(a)\n                    b_coord, b_payload = _get_next(b)\n                    continue\n\n                if b_coord > a_coord:\n                    yield a_coord, a_payload\n                    a_coord, a_payload = _get_next(a)\n                    continue\n\n                if a_coord > b_coord:\n                    b_coord, b_payload = _get_next(b)\n                    continue")
+v("C04", "silent-xor-reorder-advance", "silent", I,
+  "                if a_coord == b_coord:\n                    a_coord, a_payload = _get_next(a)\n                    b_coord, b_payload = _get_next(b)\n\n                elif a_coord < b_coord:\n                    b_default = self.b_fiber._createDefault(addtorank=False)",
+  "                if a_coord == b_coord:\n                    b_coord, b_payload = _get_next(b)\n                    a_coord, a_payload = _get_next(a)\n\n                elif a_coord < b_coord:\n                    b_default = self.b_fiber._createDefault(addtorank=False)")
